@@ -356,6 +356,14 @@ impl Ranking {
                 }
                 cx.count("stores with ratings in [2^31, 2^32)");
             }
+        } else if cx.rng.chance(1, 12) {
+            // ... and, on a 64-bit host, anything a usize can hold: spread over the whole range (distinct stays distinct)
+            let top = recs.iter().map(|r| r.2).max().unwrap_or(0).max(1);
+            let f = usize::MAX / top;
+            for r in recs.iter_mut() {
+                r.2 *= f;
+            }
+            cx.count("stores with ratings spread over the whole usize range");
         }
         let limit = *cx.rng.pick(&[n, n + 1, 10.max(n / 10 + 1), (n + 9) / 10, n.max(3) / 3 + 1]);
         let limit = limit.max((n + 9) / 10); // |store| <= 10*limit
@@ -639,7 +647,7 @@ impl Ranking {
         // adjacent ratings at a high magnitude (where narrower number types can no longer tell them apart)
         let rating_offset = if rating_scale == 1 && cx.rng.chance(1, 4) {
             cx.count("stores with adjacent ratings above 2^24");
-            *cx.rng.pick(&[1usize << 24, (1 << 30) + 1, (1usize << 31) - 1 - 3 * 1300])
+            *cx.rng.pick(&[1usize << 24, (1 << 30) + 1, (1usize << 31) - 1 - 3 * 1300, (1usize << 32) - 5000, (1 << 53) + 1, (1 << 62) + 7, (1usize << 63) - 5000])
         } else {
             0
         };
@@ -792,7 +800,7 @@ impl Prop for Ranking {
     fn floors(&self) -> Vec<(&'static str, u64, u64)> {
         match self.0 {
             Which::Verdicts => vec![("truncated (more matches than limit)", 200, 2000), ("beyond the 10x cap (soundness only)", 100, 1000), ("limit 0", 50, 500), ("selection buffer refilled (matches >= 2*limit)", 100, 1000), ("store with tied ratings (set comparison)", 50, 500), ("empty query", 50, 500), ("corpus-store searches", 100, 2000), ("corpus-store searches compared with the unlimited corpus store", 10, 200), ("large stores (limit 50-200)", 400, 8000), ("large stores whose match count is an exact multiple of the limit", 20, 400), ("stores of more than 2048 records", 8, 160), ("stores of 66-260 records", 300, 3000)],
-            Which::Order => vec![("pair stores", 2000, 20000), ("permuted stores", 2000, 20000), ("searches with >= 2 hits", 300, 3000), ("truncated lists compared across permutations", 30, 300), ("stores of similar words", 500, 5000), ("pairs involving a hit ranked 7th or lower", 300, 3000), ("large stores (limit 50-200)", 200, 4000), ("stores of more than 2048 records", 4, 80), ("stores with ratings in [2^31, 2^32)", 200, 2000)],
+            Which::Order => vec![("pair stores", 2000, 20000), ("permuted stores", 2000, 20000), ("searches with >= 2 hits", 300, 3000), ("truncated lists compared across permutations", 30, 300), ("stores of similar words", 500, 5000), ("pairs involving a hit ranked 7th or lower", 300, 3000), ("large stores (limit 50-200)", 200, 4000), ("stores of more than 2048 records", 4, 80), ("stores with ratings in [2^31, 2^32)", 200, 2000), ("stores with ratings spread over the whole usize range", 100, 1000)],
             Which::Rules => vec![("rule exact>typo", 500, 5000), ("rule both>one", 500, 5000), ("rule prefix: exact>tail", 500, 5000), ("rule adjacent>gap", 500, 5000), ("rule first>second", 500, 5000), ("rule identical titles: rating decides", 300, 3000), ("rule equal rating: shorter title first", 300, 3000), ("rule function word: content word first", 1000, 10000), ("u made of two function words run together", 300, 3000), ("rule cases with a third, unrelated record", 20000, 200000), ("identical titles with ratings 1-3 apart", 1000, 10000)],
             Which::Empty => vec![("searches after further adds", 1000, 10000), ("truncated lists with tied ratings", 500, 5000), ("stores with distinct ratings", 500, 5000), ("limit 0", 100, 1000), ("stores of 13-60 records", 1000, 10000), ("stores whose titles share a prefix of 20-40 characters", 1500, 15000), ("stores with adjacent ratings above 2^24", 1000, 10000), ("searches after a limit change", 1000, 10000)],
         }
